@@ -50,6 +50,12 @@ def check(mon, ev):
     Sk, Sa, Sb = S(kx, Lk), S(a, La), S(b, Lb)
     ulp = lambda L: mpf(math.ulp(float(L))) if L != 0 else mpf(0)
     lnk, lna, lnb = dS(kx, Lk) * ulp(Lk), dS(a, La) * ulp(La), dS(b, Lb) * ulp(Lb)
+    if quartic:
+        # the quartic form computes u * x^5 R(x) ~ u * e^|ln t| before multiplying by t: that intermediate must not overflow
+        worst = max(abs(Lk), abs(La), abs(Lb))
+        if worst > 700 or not rng_ok(fmp(Mq[4]) * mpmath.exp(worst)) or not all(rng_ok(fmp(Mq[j]) * worst ** (j + 1)) for j in range(4)):
+            mon.count("out_of_domain")
+            return
     mags = [Sk, Sa, Sb, abs(mpf(ky))] + [abs(fmp(q)) for q in Q]
     if not all(rng_ok(v) for v in mags) or any(not rng_ok(abs(L) ** n) for L in (Lk, La, Lb) if L != 0):
         mon.count("out_of_domain")
